@@ -7,6 +7,7 @@ use crate::model::*;
 use rand::rngs::StdRng;
 use rand::seq::SliceRandom;
 use rand::{Rng, SeedableRng};
+use std::collections::HashSet;
 
 pub const BOUNDARY: [i64; 26] = [
     0,
@@ -50,7 +51,6 @@ pub struct Knobs {
     pub p_repeat: f64,
     pub p_while: f64,
     pub p_reset: f64,
-    pub p_declare: f64,
     /// probability that an input entry is X / C / Z / bits
     pub p_x: f64,
     pub p_c: f64,
@@ -63,6 +63,13 @@ pub struct Knobs {
     pub big_consts: bool,
     pub max_bound: i64,
     pub expr_depth: usize,
+    /// number of `declare` statements (virtual signals V0..)
+    pub max_virtuals: usize,
+    pub bidir: bool,
+    /// probability that an identifier leaf is a device output rather than a pool variable
+    pub p_device: f64,
+    /// literal entries use boundary constants and full-width values
+    pub wide_literals: bool,
 }
 
 impl Knobs {
@@ -77,9 +84,8 @@ impl Knobs {
             p_repeat: 0.08,
             p_while: 0.10,
             p_reset: 0.02,
-            p_declare: 0.0,
-            p_x: 0.03,
-            p_c: 0.03,
+            p_x: 0.02,
+            p_c: 0.0,
             p_z: 0.03,
             p_bits: 0.25,
             p_expr: 0.6,
@@ -88,7 +94,15 @@ impl Knobs {
             big_consts: false,
             max_bound: 4,
             expr_depth: 3,
+            max_virtuals: 0,
+            bidir: false,
+            p_device: 0.0,
+            wide_literals: false,
         }
+    }
+    /// flat-ish programs dominated by data rows
+    pub fn rows() -> Knobs {
+        Knobs { max_depth: 2, max_stmts: 12, p_row: 0.7, p_let: 0.1, p_loop: 0.08, p_repeat: 0.06, p_while: 0.04, p_reset: 0.02, ..Knobs::control_flow() }
     }
 }
 
@@ -101,6 +115,10 @@ pub struct Plan {
     pub col_is_input: Vec<bool>,
     /// columns (0-based) that may be produced pairwise by one bits(2,e) entry: (c, c+1)
     pub bit_pairs: Vec<usize>,
+    /// names of the virtual signals to declare
+    pub virtuals: Vec<String>,
+    /// names an expression may read from the device
+    pub readable: Vec<String>,
 }
 
 pub struct Gen {
@@ -114,12 +132,15 @@ impl Gen {
         Gen { rng: StdRng::seed_from_u64(seed), k, next_row_id: 0 }
     }
 
-    /// The default plan: inputs A(4) B(8) P(1) Q(1); one output per variable name with assorted widths;
-    /// header = the inputs plus a random subset of the outputs, in random order.
+    /// The default plan: inputs A(4) B(8) P(1) Q(1) (B possibly bidirectional); one output per variable name and per
+    /// while-counter with assorted widths; header = the inputs plus a random subset of the outputs (and of the
+    /// virtual signals, and B_out), in random order.
     pub fn plan(&mut self) -> Plan {
+        let b_bidir = self.k.bidir && self.rng.gen_bool(0.6);
+        let b_def = if self.rng.gen_bool(0.2) { Val::Z } else { Val::N(self.rng.gen_range(0..256)) };
         let mut supplied = vec![
             Sig::input("A", 4, Val::N(self.rng.gen_range(0..16))),
-            Sig::input("B", 8, if self.rng.gen_bool(0.2) { Val::Z } else { Val::N(self.rng.gen_range(0..256)) }),
+            if b_bidir { Sig::bidir("B", 8, b_def) } else { Sig::input("B", 8, b_def) },
             Sig::input("P", 1, Val::N(0)),
             Sig::input("Q", 1, Val::N(1)),
         ];
@@ -131,8 +152,8 @@ impl Gen {
             supplied.push(Sig::output(&format!("w{d}"), 8));
         }
         supplied.shuffle(&mut self.rng);
-        let mut header: Vec<String> = vec!["A".into(), "B".into()];
-        // P Q stay adjacent so that bits(2,e) can fill them
+        let nv = if self.k.max_virtuals > 0 { self.rng.gen_range(0..=self.k.max_virtuals) } else { 0 };
+        let virtuals: Vec<String> = (0..nv).map(|i| format!("V{i}")).collect();
         let mut outs: Vec<String> = self.k.vars.clone();
         outs.shuffle(&mut self.rng);
         outs.truncate(self.rng.gen_range(0..3));
@@ -140,11 +161,19 @@ impl Gen {
         if self.rng.gen_bool(0.2) {
             cols.remove(1); // B omitted from the header: always at its default
         }
+        if b_bidir && self.rng.gen_bool(0.7) {
+            cols.push(vec!["B_out".into()]);
+        }
         for o in outs {
             cols.push(vec![o]);
         }
+        for v in &virtuals {
+            if self.rng.gen_bool(0.7) {
+                cols.push(vec![v.clone()]);
+            }
+        }
         cols.shuffle(&mut self.rng);
-        header.clear();
+        let mut header = vec![];
         let mut bit_pairs = vec![];
         for c in cols {
             if c.len() == 2 {
@@ -153,7 +182,9 @@ impl Gen {
             header.extend(c);
         }
         let col_is_input = header.iter().map(|h| supplied.iter().any(|s| &s.name == h && s.is_in())).collect();
-        Plan { header, supplied, col_is_input, bit_pairs }
+        let mut readable: Vec<String> = supplied.iter().filter(|s| s.is_out()).map(|s| s.name.clone()).collect();
+        readable.sort();
+        Plan { header, supplied, col_is_input, bit_pairs, virtuals, readable }
     }
 
     pub fn small_const(&mut self) -> i64 {
@@ -164,8 +195,7 @@ impl Gen {
         }
     }
 
-    fn const_expr(&mut self) -> Expr {
-        let c = self.small_const();
+    pub fn const_of(c: i64) -> Expr {
         if c >= 0 {
             Expr::Num(c)
         } else if c == i64::MIN {
@@ -175,13 +205,27 @@ impl Gen {
         }
     }
 
+    fn const_expr(&mut self) -> Expr {
+        let c = self.small_const();
+        Gen::const_of(c)
+    }
+
+    fn ident(&mut self, plan: Option<&Plan>) -> Expr {
+        if let Some(p) = plan {
+            if self.rng.gen_bool(self.k.p_device) && !p.readable.is_empty() {
+                return Expr::Id(p.readable.choose(&mut self.rng).unwrap().clone());
+            }
+        }
+        Expr::Id(self.k.vars.choose(&mut self.rng).unwrap().clone())
+    }
+
     pub fn expr(&mut self, depth: usize) -> Expr {
+        self.expr_in(depth, None)
+    }
+
+    pub fn expr_in(&mut self, depth: usize, plan: Option<&Plan>) -> Expr {
         if depth == 0 || self.rng.gen_bool(0.3) {
-            return if self.rng.gen_bool(0.5) {
-                self.const_expr()
-            } else {
-                Expr::Id(self.k.vars.choose(&mut self.rng).unwrap().clone())
-            };
+            return if self.rng.gen_bool(0.5) { self.const_expr() } else { self.ident(plan) };
         }
         let c = self.rng.gen_range(0..100);
         if c < 60 {
@@ -191,8 +235,8 @@ impl Gen {
                 &["+", "-", "*", "&", "|", "^", "<<", ">>", "<", ">", "<=", ">=", "=", "!="]
             };
             let op = *ops.choose(&mut self.rng).unwrap();
-            let l = self.expr(depth - 1);
-            let mut r = self.expr(depth - 1);
+            let l = self.expr_in(depth - 1, plan);
+            let mut r = self.expr_in(depth - 1, plan);
             if op == "/" || op == "%" {
                 // keep clear of division by zero (that is C10's workload)
                 r = Expr::bin("|", r, Expr::Num(1));
@@ -203,45 +247,54 @@ impl Gen {
             Expr::bin(op, l, r)
         } else if c < 75 {
             let op = *["-", "!", "~"].choose(&mut self.rng).unwrap();
-            Expr::un(op, self.expr(depth - 1))
+            Expr::un(op, self.expr_in(depth - 1, plan))
         } else if c < 88 {
-            Expr::call("ite", vec![self.expr(depth - 1), self.expr(depth - 1), self.expr(depth - 1)])
-        } else if self.k.allow_random && c < 96 {
-            let bound = if self.rng.gen_bool(0.7) {
+            Expr::call("ite", vec![self.expr_in(depth - 1, plan), self.expr_in(depth - 1, plan), self.expr_in(depth - 1, plan)])
+        } else if self.k.allow_random && c < 97 {
+            let bound = if self.rng.gen_bool(0.6) {
                 Expr::Num(self.rng.gen_range(2..9))
+            } else if self.k.big_consts && self.rng.gen_bool(0.5) {
+                Expr::Num(*[2i64, 3, 1 << 31, (1 << 32) + 1, 1 << 62, (1 << 62) - 1, 1_000_000_007].choose(&mut self.rng).unwrap())
             } else {
-                Expr::bin("+", Expr::bin("&", self.expr(depth - 1), Expr::Num(7)), Expr::Num(2))
+                Expr::bin("+", Expr::bin("&", self.expr_in(depth - 1, plan), Expr::Num(7)), Expr::Num(2))
             };
             Expr::call("random", vec![bound])
         } else {
-            self.expr(depth - 1)
+            self.expr_in(depth - 1, plan)
         }
     }
 
     /// a loop bound: constants incl. zero and negatives, variables, device reads, arithmetic
-    pub fn bound(&mut self) -> Expr {
+    pub fn bound(&mut self, plan: &Plan) -> Expr {
         let c = self.rng.gen_range(0..100);
         if c < 45 {
-            let b = self.rng.gen_range(-2..=self.k.max_bound);
-            if b < 0 {
-                Expr::un("-", Expr::Num(-b))
-            } else {
-                Expr::Num(b)
-            }
+            Gen::const_of(self.rng.gen_range(-2..=self.k.max_bound))
         } else if c < 70 {
             // a variable or device read, kept small
-            Expr::bin("&", Expr::Id(self.k.vars.choose(&mut self.rng).unwrap().clone()), Expr::Num(3))
+            Expr::bin("&", self.ident(Some(plan)), Expr::Num(3))
         } else {
-            Expr::bin("%", self.expr(2), Expr::Num(self.k.max_bound.max(1) + 1))
+            Expr::bin("%", self.expr_in(2, Some(plan)), Expr::Num(self.k.max_bound.max(1) + 1))
         }
     }
 
-    fn entries(&mut self, plan: &Plan) -> Vec<Entry> {
+    fn literal(&mut self, bits_hint: usize) -> i64 {
+        if self.k.wide_literals {
+            match self.rng.gen_range(0..3) {
+                0 => (*BOUNDARY.choose(&mut self.rng).unwrap()).max(0),
+                1 => self.rng.gen_range(0..i64::MAX),
+                _ => self.rng.gen_range(0..(1i64 << bits_hint.min(20))),
+            }
+        } else {
+            self.small_const().max(0)
+        }
+    }
+
+    pub fn entries(&mut self, plan: &Plan) -> Vec<Entry> {
         let mut out = vec![];
         let mut c = 0;
         while c < plan.header.len() {
             if plan.bit_pairs.contains(&c) && self.rng.gen_bool(self.k.p_bits) {
-                out.push(Entry::Bits(2, self.expr(self.k.expr_depth.min(2))));
+                out.push(Entry::Bits(2, self.expr_in(self.k.expr_depth.min(2), Some(plan))));
                 c += 2;
                 continue;
             }
@@ -255,18 +308,18 @@ impl Gen {
                 } else if r < self.k.p_x + self.k.p_c + self.k.p_z {
                     Entry::Z
                 } else if self.rng.gen_bool(self.k.p_expr) {
-                    Entry::Expr(self.expr(self.k.expr_depth))
+                    Entry::Expr(self.expr_in(self.k.expr_depth, Some(plan)))
                 } else {
-                    Entry::Num(self.small_const().max(0))
+                    Entry::Num(self.literal(8))
                 }
             } else if r < 0.2 {
                 Entry::X
             } else if r < 0.25 {
                 Entry::Z
             } else if self.rng.gen_bool(self.k.p_expr) {
-                Entry::Expr(self.expr(self.k.expr_depth))
+                Entry::Expr(self.expr_in(self.k.expr_depth, Some(plan)))
             } else {
-                Entry::Num(self.small_const().max(0))
+                Entry::Num(self.literal(8))
             };
             out.push(e);
             c += 1;
@@ -274,7 +327,7 @@ impl Gen {
         out
     }
 
-    fn row_id(&mut self) -> usize {
+    pub fn row_id(&mut self) -> usize {
         self.next_row_id += 1;
         self.next_row_id
     }
@@ -289,7 +342,7 @@ impl Gen {
             }
             *budget -= 1;
             let k = &self.k;
-            let total = k.p_row + k.p_let + k.p_loop + k.p_repeat + k.p_while + k.p_reset + k.p_declare;
+            let total = k.p_row + k.p_let + k.p_loop + k.p_repeat + k.p_while + k.p_reset;
             let mut r: f64 = self.rng.gen::<f64>() * total;
             let nest_ok = depth < self.k.max_depth;
             macro_rules! pick {
@@ -305,17 +358,17 @@ impl Gen {
             } else if pick!(self.k.p_let) {
                 let names: Vec<String> = self.k.vars.iter().filter(|v| Some(v.as_str()) != counter).cloned().collect();
                 let name = names.choose(&mut self.rng).unwrap().clone();
-                out.push(Stmt::Let { name, e: self.expr(self.k.expr_depth) });
+                out.push(Stmt::Let { name, e: self.expr_in(self.k.expr_depth, Some(plan)) });
             } else if pick!(self.k.p_loop) {
                 if !nest_ok {
                     continue;
                 }
                 let var = self.k.vars.iter().filter(|v| v.as_str() != "n").cloned().collect::<Vec<_>>().choose(&mut self.rng).unwrap().clone();
-                let max = self.bound();
+                let max = self.bound(plan);
                 let body = self.block(plan, depth + 1, budget, Some(&var), 1);
                 out.push(Stmt::Loop { var, max, body });
             } else if pick!(self.k.p_repeat) {
-                let max = self.bound();
+                let max = self.bound(plan);
                 let id = self.row_id();
                 out.push(Stmt::Repeat { max, id, entries: self.entries(plan) });
             } else if pick!(self.k.p_while) {
@@ -335,13 +388,10 @@ impl Gen {
                     let id = self.row_id();
                     let pos = self.rng.gen_range(0..=body.len());
                     body.insert(pos, Stmt::Row { id, entries: self.entries(plan) });
-                    self.expr(2)
+                    self.expr_in(2, Some(plan))
                 };
                 out.push(Stmt::While { cond, body });
-            } else if pick!(self.k.p_reset) {
-                out.push(Stmt::Reset);
             } else {
-                // declare: names V0.. are reserved for virtual signals; handled by the caller
                 out.push(Stmt::Reset);
             }
         }
@@ -356,8 +406,37 @@ impl Gen {
             let id = self.row_id();
             prog.push(Stmt::Row { id, entries: self.entries(plan) });
         }
+        // declarations of the virtual signals: anywhere among the statements, at any depth, in any order
+        let mut vs = plan.virtuals.clone();
+        vs.shuffle(&mut self.rng);
+        for name in vs {
+            // a virtual signal reads device outputs only (variables are invisible to it, C14); names that are also
+            // variables are deliberately allowed
+            let saved = self.k.p_device;
+            self.k.p_device = 0.8;
+            let allow_random = std::mem::replace(&mut self.k.allow_random, false);
+            let e = self.expr_in(2, Some(plan));
+            self.k.p_device = saved;
+            self.k.allow_random = allow_random;
+            let d = Stmt::Declare { name, e };
+            insert_anywhere(&mut prog, d, &mut self.rng);
+        }
         prog
     }
+}
+
+fn insert_anywhere(stmts: &mut Vec<Stmt>, d: Stmt, rng: &mut StdRng) {
+    // descend into a nested block with probability 1/3 when there is one
+    let nested: Vec<usize> = stmts.iter().enumerate().filter(|(_, s)| matches!(s, Stmt::Loop { .. } | Stmt::While { .. })).map(|(i, _)| i).collect();
+    if !nested.is_empty() && rng.gen_bool(0.33) {
+        let i = *nested.choose(rng).unwrap();
+        match &mut stmts[i] {
+            Stmt::Loop { body, .. } | Stmt::While { body, .. } => return insert_anywhere(body, d, rng),
+            _ => unreachable!(),
+        }
+    }
+    let pos = rng.gen_range(0..=stmts.len());
+    stmts.insert(pos, d);
 }
 
 pub fn contains_row(stmts: &[Stmt]) -> bool {
@@ -368,10 +447,180 @@ pub fn contains_row(stmts: &[Stmt]) -> bool {
     })
 }
 
-/// A driver policy whose answers are a known, mostly injective function of (call index, signal):
-/// small numbers so that device-driven loop bounds stay small.
-pub fn policy_small(seed: u64, n_signals: usize) -> Policy {
+/// Names read from the device: the harness's own copy of the scoping rules (Scope.tla is the specification;
+/// this is only used to choose driver layouts that supply what the program reads).
+pub fn reads(prog: &[Stmt]) -> HashSet<String> {
+    fn use_ids(e: &Expr, scopes: &[HashSet<String>], out: &mut HashSet<String>) {
+        let mut ids = vec![];
+        e.ids(&mut ids);
+        for i in ids {
+            if !scopes.iter().any(|s| s.contains(&i)) {
+                out.insert(i);
+            }
+        }
+    }
+    fn entries(es: &[Entry], scopes: &[HashSet<String>], out: &mut HashSet<String>) {
+        for e in es {
+            match e {
+                Entry::Expr(e) | Entry::Bits(_, e) => use_ids(e, scopes, out),
+                _ => {}
+            }
+        }
+    }
+    fn block(stmts: &[Stmt], scopes: &mut Vec<HashSet<String>>, out: &mut HashSet<String>) {
+        for s in stmts {
+            match s {
+                Stmt::Let { name, e } => {
+                    use_ids(e, scopes, out);
+                    scopes.last_mut().unwrap().insert(name.clone());
+                }
+                Stmt::Row { entries: es, .. } => entries(es, scopes, out),
+                Stmt::Loop { var, max, body } => {
+                    use_ids(max, scopes, out);
+                    scopes.push([var.clone()].into_iter().collect());
+                    block(body, scopes, out);
+                    scopes.pop();
+                }
+                Stmt::Repeat { max, entries: es, .. } => {
+                    use_ids(max, scopes, out);
+                    scopes.push(["n".to_string()].into_iter().collect());
+                    entries(es, scopes, out);
+                    scopes.pop();
+                }
+                Stmt::While { cond, body } => {
+                    use_ids(cond, scopes, out);
+                    block(body, scopes, out);
+                }
+                Stmt::Reset => {}
+                Stmt::Declare { e, .. } => use_ids(e, &[], out),
+            }
+        }
+    }
+    let mut out = HashSet::new();
+    block(prog, &mut vec![HashSet::new()], &mut out);
+    out
+}
+
+// ---------------------------------------------------------------------------------------------
+// driver policies
+
+#[derive(Debug, Clone, Copy, PartialEq, Eq)]
+pub enum ValMode {
+    /// numbers 0..5: keeps device-driven loop bounds small
+    Small,
+    /// numbers inside the signal's width, distinct per (call, signal)
+    InWidth,
+    /// anything: boundary words, negative numbers, Z, X
+    Wild,
+}
+
+#[derive(Debug, Clone, Copy, PartialEq, Eq)]
+pub enum Fault {
+    /// the call fails with this error id
+    Error(u32),
+    Drop,
+    Add,
+    Duplicate,
+    Swap,
+    Substitute,
+}
+
+#[derive(Debug, Clone)]
+pub struct PolicySpec {
+    pub seed: u64,
+    /// indices into the driver table, in the order the driver lists them
+    pub layout: Vec<usize>,
+    pub widths: Vec<usize>,
+    pub mode: ValMode,
+    /// signals (table indices) whose value is always a small number (the program reads them)
+    pub numeric: Vec<usize>,
+    /// probability of Z / X for signals not in `numeric` (Wild mode) or for any signal (`zx_all`)
+    pub p_zx: f64,
+    pub zx_all: bool,
+    pub fault: Option<(usize, Fault)>,
+    /// table index of a signal foreign to the test (for Add / Substitute)
+    pub foreign: usize,
+}
+
+fn mix(a: u64, b: u64, c: u64) -> u64 {
+    let mut x = a.wrapping_mul(0x9E37_79B9_7F4A_7C15) ^ b.wrapping_mul(0xC2B2_AE3D_27D4_EB4F) ^ c.wrapping_mul(0x1656_67B1_9E37_79F9);
+    x ^= x >> 29;
+    x = x.wrapping_mul(0xBF58_476D_1CE4_E5B9);
+    x ^= x >> 32;
+    x
+}
+
+pub fn make_policy(spec: PolicySpec) -> Policy {
     Box::new(move |idx, _kind, _inputs| {
-        Answer::Ok((0..n_signals).map(|j| (j, Val::N(((idx as u64 * 7 + j as u64 * 3 + seed) % 6) as i64))).collect())
+        if let Some((at, Fault::Error(id))) = spec.fault {
+            if at == idx {
+                return Answer::Err(id);
+            }
+        }
+        let mut list: Vec<(usize, Val)> = spec
+            .layout
+            .iter()
+            .map(|&j| {
+                let h = mix(spec.seed, idx as u64, j as u64);
+                let small = Val::N(((idx as u64 * 7 + j as u64 * 3 + spec.seed) % 6) as i64);
+                let zx = |h: u64| if h & 1 == 0 { Val::Z } else { Val::X };
+                let v = if spec.numeric.contains(&j) && !spec.zx_all {
+                    small
+                } else {
+                    let p = (h >> 40) as f64 / (1u64 << 24) as f64;
+                    if p < spec.p_zx {
+                        zx(h)
+                    } else {
+                        match spec.mode {
+                            ValMode::Small => small,
+                            ValMode::InWidth => {
+                                let w = spec.widths[j];
+                                let m = if w >= 64 { u64::MAX } else { (1u64 << w) - 1 };
+                                Val::N((h & m) as i64)
+                            }
+                            ValMode::Wild => match h % 4 {
+                                0 => Val::N(BOUNDARY[(h >> 8) as usize % BOUNDARY.len()]),
+                                1 => Val::N(h as i64),
+                                2 => Val::N((h >> 8) as i64 % 16),
+                                _ => Val::N(-((h >> 8) as i64 % 1000)),
+                            },
+                        }
+                    }
+                };
+                (j, v)
+            })
+            .collect();
+        if let Some((at, f)) = spec.fault {
+            if at == idx && !list.is_empty() {
+                let h = mix(spec.seed, 0xFA17, idx as u64) as usize;
+                let p = h % list.len();
+                match f {
+                    Fault::Error(_) => {}
+                    Fault::Drop => {
+                        list.remove(p);
+                    }
+                    Fault::Add => list.push((spec.foreign, Val::N(1))),
+                    Fault::Duplicate => {
+                        let e = list[p];
+                        list.insert(p, e);
+                    }
+                    Fault::Swap => {
+                        if list.len() >= 2 {
+                            let q = (p + 1 + (h >> 8) % (list.len() - 1)) % list.len();
+                            list.swap(p, q);
+                        } else {
+                            list.push((spec.foreign, Val::N(1)));
+                        }
+                    }
+                    Fault::Substitute => {
+                        // another signal of the table in this position: one the test knows, or the foreign one
+                        let others: Vec<usize> = (0..spec.widths.len()).filter(|j| *j != list[p].0).collect();
+                        let j = if others.is_empty() { spec.foreign } else { others[(h >> 8) % others.len()] };
+                        list[p].0 = j;
+                    }
+                }
+            }
+        }
+        Answer::Ok(list)
     })
 }
